@@ -173,7 +173,7 @@ func (e *Engine) inline(fr *Frame, st *State, callee *ssa.Function, args []Val, 
 			}
 			rep := sub.rets[0].vals[k]
 			for _, r := range sub.rets {
-				if p, ok := r.vals[k].(PtrV); ok && p.Rid.S != "0" {
+				if p, ok := r.vals[k].(PtrV); ok && !isNilRid(p.Rid) {
 					rep = r.vals[k]
 				}
 			}
@@ -277,8 +277,8 @@ func (e *Engine) unknownCall(st *State, what string) {
 	}
 	e.nbase++
 	st.base = fmt.Sprintf("M%d:", e.nbase)
-	na := e.fresh(SInt, "alloc")
-	e.assume(app(SBool, ">=", na, st.alloc))
+	na := e.fresh(e.rs(), "alloc")
+	e.assume(e.ridLe(st.alloc, na))
 	st.alloc = na
 }
 
@@ -305,7 +305,7 @@ func (e *Engine) builtin(fr *Frame, st *State, b *ssa.Builtin, args []Val, argVa
 	intT := types.Typ[types.Int]
 	switch b.Name() {
 	case "ssa:deferstack":
-		return Scalar{IntLit(0), rt}, true
+		return Scalar{e.ridLit(0), rt}, true
 	case "len":
 		switch x := args[0].(type) {
 		case SliceV:
@@ -318,7 +318,7 @@ func (e *Engine) builtin(fr *Frame, st *State, b *ssa.Builtin, args []Val, argVa
 			if _, isMap := x.Ty.Underlying().(*types.Map); isMap {
 				n := Select(e.mapLenGet(st, x.Ty), x.T)
 				e.assume(Implies(st.guard, a.idxLe(a.idxLit(0), n)))
-				return Scalar{Ite(Eq(x.T, IntLit(0)), a.idxLit(0), n), intT}, true
+				return Scalar{Ite(Eq(x.T, e.ridLit(0)), a.idxLit(0), n), intT}, true
 			}
 			n := e.fresh(a.idxSort(), "chanlen")
 			e.assume(a.idxLe(a.idxLit(0), n))
@@ -347,6 +347,21 @@ func (e *Engine) builtin(fr *Frame, st *State, b *ssa.Builtin, args []Val, argVa
 		}
 		switch t := args[1].(type) {
 		case SliceV:
+			// append(s, x): the variadic argument is a fresh one-element array (SSA "varargs"): store the element directly
+			if len(argVals) == 2 {
+				if sl, ok := argVals[1].(*ssa.Slice); ok {
+					if al, ok := sl.X.(*ssa.Alloc); ok && al.Comment == "varargs" {
+						if at, ok := al.Type().(*types.Pointer).Elem().Underlying().(*types.Array); ok && at.Len() == 1 && sl.Low == nil && sl.High == nil {
+							el := s.Ty.Underlying().(*types.Slice).Elem()
+							p := PtrV{Ty: types.NewPointer(el), Rid: t.Rid, Idx: t.Off, Root: el, NonNil: true}
+							e.quiet++
+							v := e.load(st, p, pos)
+							e.quiet--
+							return e.appendOne(st, s, v), true
+						}
+					}
+				}
+			}
 			return e.appendSlice(st, s, t, rt), true
 		case Scalar:
 			if isString(t.Ty) {
@@ -386,7 +401,7 @@ func (e *Engine) builtin(fr *Frame, st *State, b *ssa.Builtin, args []Val, argVa
 		c, _ := a.BinOp(op, x.T, y.T, x.Ty, y.Ty)
 		return Scalar{Ite(c, x.T, y.T), x.Ty}, true
 	case "recover":
-		return Scalar{IntLit(0), rt}, true
+		return Scalar{e.ridLit(0), rt}, true
 	case "ssa:wrapnilchk":
 		return args[0], true
 	case "clear":
@@ -402,11 +417,11 @@ func (e *Engine) appendSlice(st *State, s, t SliceV, rt types.Type) Val {
 	el := s.Ty.Underlying().(*types.Slice).Elem()
 	newLen := a.idxAdd(s.Len, t.Len)
 	inplace := a.idxLe(newLen, s.Cap)
-	res := SliceV{Ty: s.Ty, Rid: e.fresh(SInt, "app.rid"), Off: e.fresh(a.idxSort(), "app.off"), Len: newLen, Cap: e.fresh(a.idxSort(), "app.cap")}
+	res := SliceV{Ty: s.Ty, Rid: e.fresh(e.rs(), "app.rid"), Off: e.fresh(a.idxSort(), "app.off"), Len: newLen, Cap: e.fresh(a.idxSort(), "app.cap")}
 	g := st.guard
 	// constant-length source (make([]T,n) or single element) handled generally with quantifier-free stores when len is literal
 	nfresh := st.alloc
-	st.alloc = app(SInt, "+", st.alloc, IntLit(1))
+	st.alloc = e.ridNext(st.alloc)
 	e.assume(Implies(g, Ite(inplace,
 		And(Eq(res.Rid, s.Rid), Eq(res.Off, s.Off), Eq(res.Cap, s.Cap)),
 		And(Eq(res.Rid, nfresh), Eq(res.Off, a.idxLit(0)), a.idxLe(newLen, res.Cap), a.idxLe(res.Cap, a.idxLit(1<<41))))))
@@ -440,10 +455,10 @@ func (e *Engine) appendOne(st *State, s SliceV, v Val) Val {
 	el := s.Ty.Underlying().(*types.Slice).Elem()
 	newLen := a.idxAdd(s.Len, a.idxLit(1))
 	inplace := a.idxLe(newLen, s.Cap)
-	res := SliceV{Ty: s.Ty, Rid: e.fresh(SInt, "app.rid"), Off: e.fresh(a.idxSort(), "app.off"), Len: newLen, Cap: e.fresh(a.idxSort(), "app.cap")}
+	res := SliceV{Ty: s.Ty, Rid: e.fresh(e.rs(), "app.rid"), Off: e.fresh(a.idxSort(), "app.off"), Len: newLen, Cap: e.fresh(a.idxSort(), "app.cap")}
 	g := st.guard
 	nfresh := st.alloc
-	st.alloc = app(SInt, "+", st.alloc, IntLit(1))
+	st.alloc = e.ridNext(st.alloc)
 	e.assume(Implies(g, Ite(inplace,
 		And(Eq(res.Rid, s.Rid), Eq(res.Off, s.Off), Eq(res.Cap, s.Cap)),
 		And(Eq(res.Rid, nfresh), Eq(res.Off, a.idxLit(0)), a.idxLe(newLen, res.Cap), a.idxLe(res.Cap, a.idxLit(1<<41))))))
@@ -522,7 +537,7 @@ func (e *Engine) mapSorts(mt *types.Map) (Sort, bool) {
 func mapLenKey(mt types.Type) string { return "map:" + typeKey(mt) + "|$len" }
 
 func (e *Engine) mapLenGet(st *State, mt types.Type) Term {
-	return e.heapGetRaw(st, mapLenKey(mt), SArr(SInt, e.ar.idxSort()))
+	return e.heapGetRaw(st, mapLenKey(mt), SArr(e.rs(), e.ar.idxSort()))
 }
 
 func (e *Engine) mapLenSet(st *State, mt types.Type, h Term, n Term) {
@@ -538,7 +553,7 @@ func (e *Engine) mapInitEmpty(st *State, h Term, t types.Type) {
 		return
 	}
 	hk, _ := mapKeys(mt)
-	hs := SArr(SInt, SArr(ks, SBool))
+	hs := SArr(e.rs(), SArr(ks, SBool))
 	m := e.heapGetRaw(st, hk, hs)
 	st.heap[hk] = Store(m, h, Term{fmt.Sprintf("((as const %s) false)", SArr(ks, SBool)), SArr(ks, SBool)})
 }
@@ -564,7 +579,7 @@ func (e *Engine) mapHavoc(st *State, m Scalar) {
 func (e *Engine) mapUpdate(fr *Frame, st *State, x *ssa.MapUpdate) {
 	m := fr.get(e, x.Map).(Scalar)
 	mt := m.Ty.Underlying().(*types.Map)
-	e.oblige("mapwrite-nil", fmt.Sprintf("mapwrite-nil#%d", e.ordinal("mapwrite")), st.guard, Not(Eq(m.T, IntLit(0))), x.Pos())
+	e.oblige("mapwrite-nil", fmt.Sprintf("mapwrite-nil#%d", e.ordinal("mapwrite")), st.guard, Not(Eq(m.T, e.ridLit(0))), x.Pos())
 	{
 		// the ghost length may grow by one
 		old := Select(e.mapLenGet(st, m.Ty), m.T)
@@ -580,14 +595,14 @@ func (e *Engine) mapUpdate(fr *Frame, st *State, x *ssa.MapUpdate) {
 	}
 	kt := e.scalar(fr.get(e, x.Key))
 	hk, vk := mapKeys(mt)
-	hs := SArr(SInt, SArr(ks, SBool))
+	hs := SArr(e.rs(), SArr(ks, SBool))
 	hm := e.heapGetRaw(st, hk, hs)
 	st.heap[hk] = Store(hm, m.T, Store(Select(hm, m.T), kt, TTrue))
 	v := fr.get(e, x.Value)
 	terms := e.flatten(v)
 	for i, sl := range e.slots(mt.Elem()) {
 		key := vk + "." + sl.Path
-		vs := SArr(SInt, SArr(ks, sl.Sort))
+		vs := SArr(e.rs(), SArr(ks, sl.Sort))
 		vm := e.heapGetRaw(st, key, vs)
 		st.heap[key] = Store(vm, m.T, Store(Select(vm, m.T), kt, terms[i]))
 	}
@@ -617,16 +632,16 @@ func (e *Engine) lookup(fr *Frame, st *State, x *ssa.Lookup) Val {
 	}
 	kt := e.scalar(fr.get(e, x.Index))
 	hk, vk := mapKeys(mt)
-	hm := e.heapGetRaw(st, hk, SArr(SInt, SArr(ks, SBool)))
+	hm := e.heapGetRaw(st, hk, SArr(e.rs(), SArr(ks, SBool)))
 	has := Select(Select(hm, bs.T), kt)
 	// nil map has no keys
-	has = And(Not(Eq(bs.T, IntLit(0))), has)
+	has = And(Not(Eq(bs.T, e.ridLit(0))), has)
 	zero := e.zeroVal(mt.Elem())
 	zt := e.flatten(zero)
 	idx := 0
 	v := e.build(mt.Elem(), func(sl Slot) Term {
 		key := vk + "." + sl.Path
-		vm := e.heapGetRaw(st, key, SArr(SInt, SArr(ks, sl.Sort)))
+		vm := e.heapGetRaw(st, key, SArr(e.rs(), SArr(ks, sl.Sort)))
 		t := Ite(has, Select(Select(vm, bs.T), kt), zt[idx])
 		idx++
 		return t
